@@ -269,7 +269,9 @@ func build(o *obs, tree *xcodec.Tree, terr string, canary int) *wire.Case {
 	return c
 }
 
-func b(a, b2, c, d float64) *osm.Bounds { return &osm.Bounds{MinLat: a, MaxLat: b2, MinLon: c, MaxLon: d} }
+func b(a, b2, c, d float64) *osm.Bounds {
+	return &osm.Bounds{MinLat: a, MaxLat: b2, MinLon: c, MaxLon: d}
+}
 
 // corpus: minimised inputs of past failures and the corners named in the property text.
 func corpus() []*obs {
@@ -307,6 +309,30 @@ func corpus() []*obs {
 	out = append(out, run("OSM", &osm.OSM{Nodes: osm.Nodes{{ID: 1, Timestamp: ep}}, Ways: osm.Ways{{ID: 2, Timestamp: ep}}, Relations: osm.Relations{{ID: 3, Timestamp: ep}}}, "corpus-epoch"))
 	out = append(out, run("Note", &osm.Note{ID: 1, Comments: []*osm.NoteComment{{Text: "a\rb\r\nc", HTML: "<p>x\r</p>&amp;lt;"}}}, "corpus-note-cr"))
 	out = append(out, run("Bounds", b(1, 2, 3, 4), "corpus-bounds"))
+	// wave 6: coordinates that need more than 7 decimals (quotients, tile edges, 1e-9, a 7-decimal
+	// value plus 1e-7) in every float attribute of every type — alone, nested, and as the bounds
+	// of OSM / osmChange blocks / diff actions
+	ff := xcodec.FineFloats
+	for i := 0; i+3 < len(ff); i += 4 {
+		fb := b(ff[i], ff[i+1], ff[i+2], ff[i+3])
+		fn := &osm.Node{ID: 1, Lat: ff[i], Lon: ff[i+1], Visible: true}
+		fw := &osm.Way{ID: 2, Nodes: osm.WayNodes{{ID: 1, Lat: ff[i+2], Lon: ff[i+3]}}, Updates: osm.Updates{{Index: 0, Version: 1, Lat: ff[i+1], Lon: ff[i+2]}}, Bounds: fb}
+		fr := &osm.Relation{ID: 3, Members: osm.Members{{Type: "node", Ref: 1, Lat: ff[i+3], Lon: ff[i], Nodes: osm.WayNodes{{ID: 1, Lat: ff[i+1], Lon: ff[i+3]}}}}, Bounds: fb}
+		out = append(out, run("Bounds", fb, "corpus-fine-floats"))
+		out = append(out, run("Node", fn, "corpus-fine-floats"))
+		out = append(out, run("Way", fw, "corpus-fine-floats"))
+		out = append(out, run("Relation", fr, "corpus-fine-floats"))
+		if i%8 == 0 {
+			fu := &osm.User{ID: 1}
+			fu.Home.Lat, fu.Home.Lon = ff[i], ff[i+3]
+			out = append(out, run("Changeset", &osm.Changeset{ID: 1, MinLat: ff[i], MaxLat: ff[i+1], MinLon: ff[i+2], MaxLon: ff[i+3]}, "corpus-fine-floats"))
+			out = append(out, run("Note", &osm.Note{ID: 1, Lat: ff[i+1], Lon: ff[i+2]}, "corpus-fine-floats"))
+			out = append(out, run("User", fu, "corpus-fine-floats"))
+			out = append(out, run("OSM", &osm.OSM{Version: "0.6", Bounds: fb, Nodes: osm.Nodes{fn}, Ways: osm.Ways{fw}, Relations: osm.Relations{fr}}, "corpus-fine-floats"))
+			out = append(out, run("Change", &osm.Change{Create: &osm.OSM{Bounds: fb, Nodes: osm.Nodes{fn}}, Modify: &osm.OSM{Ways: osm.Ways{fw}}, Delete: &osm.OSM{Bounds: fb}}, "corpus-fine-floats"))
+			out = append(out, run("Diff", &osm.Diff{Actions: osm.Actions{{Type: osm.ActionModify, Old: &osm.OSM{Bounds: fb, Ways: osm.Ways{fw}}, New: &osm.OSM{Nodes: osm.Nodes{fn}}}}}, "corpus-fine-floats"))
+		}
+	}
 	// known findings of C04 (formats cannot carry these values)
 	out = append(out, run("Note", &osm.Note{ID: 2, DateCreated: osm.Date{Time: time.Unix(1600000000, 500000000).UTC()}}, "corpus-known-date"))
 	out = append(out, run("Changeset", &osm.Changeset{ID: 2, Discussion: &osm.ChangesetDiscussion{}}, "corpus-known-discussion"))
